@@ -192,6 +192,11 @@ class Verdict:
         self.broken = []         # obligations / correspondences that no longer check
         self.t0 = time.time()
         self.known = [k for k in load_known() if k.get("property") == pid and k.get("status") == "open"]
+        for f in glob.glob(os.path.join(VERIF, "evidence", "replay", "%s-*.json" % pid)):
+            try:
+                os.remove(f)
+            except OSError:
+                pass
 
     def violation(self, signature, case, observed=None, expected=None, what="", kind="input"):
         """Records a violating case; matches it against the open known findings."""
